@@ -106,6 +106,48 @@ def removal_tables(run: Run, rule: str, keep=None) -> None:
     run.sites(n, 4, "removal functions")
 
 
+INSERT_CALLS = {"VALIDATE": r"validate_mutation_time", "PREPARE": r"prepare_delta", "ENSURE": r"ensure_delta_capacity", "REM_RESET": r"removed_\.reset",
+                "ADD_SET": r"added_\.set", "PUBLISH": r"value_published_\.set", "KEYSET": r"key_set_tracking_\.record_modified"}
+
+
+def insertion_tables(run: Run, rule: str, keep=None) -> None:
+    """Decision tables of TSS/TSD insert_key / insert_key_move (the mirror image of the removal tables): the window is rolled first; a key that was
+    already present changes nothing; a slot removed earlier in this cycle is revived (removal cancelled, dictionary: published again); a NEW set
+    element is added; a NEW dictionary key is published + added only once its child has a value; the dictionary's key-set endpoint is stamped."""
+    n = 0
+    for cls in STORES:
+        for nm in ("insert_key", "insert_key_move"):
+            fa = R.fn(run, SLOT, nm, cls=cls)
+            tsd = cls == "TSDSlotStorage"
+            roles = [Role("INS", "bool", r".*\.inserted"), Role("REMOVED", "bool", r"slot_removed\(.*\)")]
+            if nm == "insert_key_move":
+                roles.append(Role("SAMEBIND", "bool", r"key\.binding\(\)==key_binding_|key_binding_==key\.binding\(\)", required=False))
+            if tsd:
+                roles.append(Role("CV", "bool", r"child_valid\(.*\)", required=False))
+
+            def spec(v, tsd=tsd):
+                calls = [("VALIDATE", ("modified_time",)), ("PREPARE", ("modified_time",)), ("ENSURE", ())]
+                if v.b("INS"):
+                    if v.b("REMOVED"):
+                        calls.append(("REM_RESET", (ANY,)))
+                        if tsd:
+                            calls.append(("PUBLISH", (ANY,)))
+                    elif tsd:
+                        if v.b("CV"):
+                            calls += [("PUBLISH", (ANY,)), ("ADD_SET", (ANY,))]
+                    else:
+                        calls.append(("ADD_SET", (ANY,)))
+                    if tsd:
+                        calls.append(("KEYSET", ("modified_time",)))
+                if keep is not None:
+                    calls = [c for c in calls if c[0] in keep]
+                return Expect(calls=calls, ret=ANY)
+            rc = INSERT_CALLS if keep is None else {k: v for k, v in INSERT_CALLS.items() if k in keep}
+            R.k1(run, rule, fa, roles, spec, role_calls=rc, what=f"{cls}::{nm}")
+            n += 1
+    run.sites(n, 4, "insertion functions")
+
+
 def check(run: Run) -> None:
     t = run.tree
 
@@ -339,6 +381,11 @@ def check(run: Run) -> None:
                             "cycle changes the value while added/removed/modified do not report it", loc=fa.loc(rev[0]))
         run.sites(n, 2, "revive branches")
 
+    with run.obligation("C05.k", "K1", "decision tables of TSS/TSD insert_key / insert_key_move: window rolled first; a present key changes nothing; a slot removed in "
+                        "this cycle is revived (removal cancelled; dictionary: value published again); a new set element is added; a new dictionary key is "
+                        "published+added iff its child already has a value; the dictionary's key-set endpoint is stamped (copy and move siblings agree)"):
+        insertion_tables(run, "C05.k")
+
     with run.obligation("C05.i", "K2", "the mutation views of sets and dictionaries never mark the series modified at a new time without a storage operation that rolled the "
                         "delta window for that time (touch / insert / remove ... taking current_mutation_time()): otherwise the tick re-reports the added / removed "
                         "elements of an earlier cycle (clear() of an already-empty collection is the boundary case)"):
@@ -404,6 +451,8 @@ def check(run: Run) -> None:
 
 
 VARIANTS = [
+    {"id": "k-set-insert-always-adds", "expect": "C05.k", "edits": [{"file": SLOT, "find": "                if (slot_removed(result.slot)) { removed_.reset(result.slot); }\n                else { added_.set(result.slot); }\n                return mutation_result(result.slot, result.constructed);\n            }\n\n            [[nodiscard]] SlotTSDataMutationResult insert_key_move", "replace": "                if (slot_removed(result.slot)) { removed_.reset(result.slot); }\n                added_.set(result.slot);\n                return mutation_result(result.slot, result.constructed);\n            }\n\n            [[nodiscard]] SlotTSDataMutationResult insert_key_move"}]},
+    {"id": "k-dict-new-key-added-before-value", "expect": "C05.k", "edits": [{"file": SLOT, "find": "                else if (child_valid(result.slot))\n                {\n                    value_published_.set(result.slot);\n                    added_.set(result.slot);\n                }\n                (void)key_set_tracking_.record_modified(modified_time);\n                return mutation_result(result.slot, result.constructed);\n            }\n\n            [[nodiscard]] SlotTSDataMutationResult remove_key", "replace": "                else\n                {\n                    value_published_.set(result.slot);\n                    added_.set(result.slot);\n                }\n                (void)key_set_tracking_.record_modified(modified_time);\n                return mutation_result(result.slot, result.constructed);\n            }\n\n            [[nodiscard]] SlotTSDataMutationResult remove_key"}]},
     {"id": "j-move-registers-already-ticked-child", "expect": "C05.j", "edits": [{"file": "src/hgraph/types/metadata/ts_data_dynamic_list_ops.cpp", "find": "                    if (!ops.move_value_from_impl(ops.context, data, std::move(source_child), modified_time))\n                    {\n                        continue;\n                    }\n                    auto *tracking = ops.mutable_tracking_impl(ops.context, data);\n                    if (tracking == nullptr) { throw std::logic_error(\"dynamic TSL child has no tracking record\"); }\n                    if (!tracking->record_modified(modified_time))\n                    {\n                        throw std::logic_error(\"dynamic TSL child reported a duplicate modification\");\n                    }", "replace": "                    const bool child_first =\n                        ops.move_value_from_impl(ops.context, data, std::move(source_child), modified_time);\n                    auto *tracking = ops.mutable_tracking_impl(ops.context, data);\n                    if (tracking == nullptr) { throw std::logic_error(\"dynamic TSL child has no tracking record\"); }\n                    if (tracking->record_modified(modified_time) != child_first)\n                    {\n                        throw std::logic_error(\"dynamic TSL child reported an inconsistent modification\");\n                    }"}]},
     {"id": "i-set-clear-skips-window-roll", "expect": "C05.i", "edits": [{"file": "src/hgraph/types/time_series/ts_data/set_view.cpp", "find": "        const auto &ops           = set_ops();\n        const bool  newly_touched = ops.touch_impl(ops.context, mutation_.mutable_data(), current_mutation_time());\n        for (const auto &key : keys) { static_cast<void>(remove(key.view())); }", "replace": "        const bool newly_touched = !mutation_.modified();\n        for (const auto &key : keys) { static_cast<void>(remove(key.view())); }"}]},
     {"id": "b-touch-does-not-roll-window", "expect": "C05.b", "edits": [{"file": SLOT, "find": "            [[nodiscard]] bool touch(DateTime modified_time)\n            {\n                validate_mutation_time(modified_time);\n                prepare_delta(modified_time);\n                return tracking_.last_modified_time != modified_time;", "replace": "            [[nodiscard]] bool touch(DateTime modified_time)\n            {\n                validate_mutation_time(modified_time);\n                ensure_delta_capacity();\n                return tracking_.last_modified_time != modified_time;"}]},
